@@ -462,7 +462,21 @@ class XEval:
         fn = e.func
         args = [self.ev(a, env, f) for a in e.args]
         kwargs = {kw.arg: self.ev(kw.value, env, f) for kw in e.keywords if kw.arg}
+        if isinstance(fn, ast.Call):
+            # f(...)(x): a validator object produced by a call, applied at once
+            fv = self.ev(fn, env, f)
+            if fv[0] == "validator" and len(args) == 1:
+                self.apply_validator(fv[1], args[0])
+                return args[0]
+            raise AnalysisError(f"XFIELD-1: call of `{norm(fn)[:50]}` result not modelled in {f.fq}")
         if isinstance(fn, ast.Name):
+            if fn.id == "len" and len(args) == 1:
+                a0 = args[0]
+                if a0[0] == "enumcls":
+                    return ("k", len(I.folder.enum_canonical(a0[1])))
+                if a0[0] in ("set", "members"):
+                    return ("k", len(a0[1]))
+                raise AnalysisError(f"XFIELD-1: len() of {a0!r} not modelled")
             if fn.id == "int" and len(args) == 1:
                 return args[0][1] if args[0][0] == "raw" else args[0]
             if fn.id == "str" and len(args) == 1:
@@ -498,7 +512,25 @@ class XEval:
                 return ("exc",)
         if isinstance(fn, ast.Attribute):
             if norm(fn).endswith("validate.Range") or norm(fn).endswith("validate.OneOf"):
-                rec = validator_record(self.ctx, f.module, e)
+                try:
+                    rec = validator_record(self.ctx, f.module, e)
+                except AnalysisError:
+                    # bounds computed from the arguments (e.g. max=len(<enum>)): evaluate them abstractly
+                    rec = {"kind": norm(fn).rsplit(".", 1)[-1], "text": norm(e)}
+                    if rec["kind"] != "Range":
+                        raise
+                    pos = ("min", "max")
+                    for i_, a_ in enumerate(args[:2]):
+                        kwargs.setdefault(pos[i_], a_)
+                    for k_ in ("min", "max"):
+                        v_ = kwargs.get(k_)
+                        if v_ is not None:
+                            if v_[0] != "k":
+                                raise AnalysisError(f"XFIELD-1: bound {k_}={v_!r} of `{norm(e)[:50]}` is not a concrete integer") from None
+                            rec[k_] = v_[1]
+                    for k_ in ("min_inclusive", "max_inclusive"):
+                        if k_ in kwargs:
+                            rec[k_] = self.truth(kwargs[k_])
                 return ("validator", rec)
             base = self.ev(fn.value, env, f)
             if base[0] == "ctxdict" and fn.attr == "get":
@@ -527,7 +559,8 @@ class XEval:
         if rec["kind"] == "Range":
             lo, hi = rec.get("min"), rec.get("max")
             if v[0] == "o":
-                if v[1] == "out":
+                # an "other" value differs from every constant in sight: it lies outside any two-sided range
+                if v[1] == "out" or (lo is not None and hi is not None):
                     raise Reject
                 return
             if (lo is not None and v[1] < lo) or (hi is not None and v[1] > hi):
